@@ -589,9 +589,20 @@ func genCancel(r *rand.Rand, i int) *Program {
 	g := &gen{r: r}
 	p := &Program{Kind: kinds(r), Conc: 1 + r.Intn(2), Queues: []string{qkind(r)}, WFYields: r.Intn(3)}
 	prod := g.adds(2 + r.Intn(3))
+	if i%5 == 3 {
+		// a busy pool with a queue behind it: the entry cancelled while pending is met by the dispatcher while other
+		// jobs are still running (a slot given back twice there lets one job too many start)
+		p.Conc = 2
+		p.WFYields = 2 + r.Intn(3)
+		prod = append(prod, g.adds(5+r.Intn(2)-len(prod))...)
+	}
 	var a, b []Op
-	for _, ad := range prod {
+	for n, ad := range prod {
 		a = append(a, ad)
+		if i%5 == 3 && n == 2 {
+			a = append(a, Op{Op: "jclose", K: ad.K})
+			continue
+		}
 		switch r.Intn(4) {
 		case 0:
 			a = append(a, Op{Op: "jclose", K: ad.K})
